@@ -411,6 +411,78 @@ pub fn run(rep: &'static Report) {
             }
         }
     }
+    // CLI: the keys used are those of the keyring the command line names (-k), whatever else the environment offers;
+    // the sender reported is the entry of THAT keyring whose key equals the authenticated sender key
+    {
+        use crate::fx::Party;
+        use crate::proc::{self, Cmd, Scratch};
+        let alice = Party::new(seed, "alice", "alicepw");
+        let bob = Party::new(seed, "bob", "bobpw");
+        // a decoy keyring binding the same names to other key pairs (same passwords, so nothing fails loudly)
+        let da = Party::new(seed, "decoy-for-alice", "alicepw");
+        let db = Party::new(seed, "decoy-for-bob", "bobpw");
+        let ring = crate::fx::keyring(&[(&alice, true), (&bob, true)]);
+        let decoy = format!("{}\n{}\n", proc::keyring_entry("alice", &da.pk_enc, Some(&da.locked)), proc::keyring_entry("bob", &db.pk_enc, Some(&db.locked)));
+        let pl = plaintext(seed ^ 0x5f, 200);
+        let e = derive32(seed, "c05-cli-e");
+        let pay = derive32(seed, "c05-cli-pay");
+        // messages to the REAL bob: from the real alice, and from the decoy "alice" (whose key the real ring does not contain)
+        let from_alice = r::write_key_file(&alice.sk, &bob.pk, &e, &pay, &pl, &[pl.len()]).unwrap();
+        let from_decoy = r::write_key_file(&da.sk, &bob.pk, &e, &pay, &pl, &[pl.len()]).unwrap();
+        for env_decoy in [false, true] {
+            for via_env_only in [false, true] {
+                if via_env_only && env_decoy {
+                    continue;
+                }
+                rep.eval(3);
+                let tag = format!("cli-keyring-{}-{}", env_decoy, via_env_only);
+                rep.nontrivial(tag.as_bytes());
+                let sc = Scratch::new();
+                sc.write("ring.txt", ring.as_bytes());
+                sc.write("decoy.txt", decoy.as_bytes());
+                sc.write("plain.bin", &pl);
+                sc.write("a.ktl", &from_alice);
+                sc.write("d.ktl", &from_decoy);
+                let wire = |mut args: Vec<&'static str>, pw: &str| -> Cmd {
+                    if !via_env_only {
+                        args.extend_from_slice(&["-k", "ring.txt"]);
+                    }
+                    let mut c = Cmd::new(&args).env("KESTREL_PASSWORD", pw);
+                    if via_env_only {
+                        c = c.env("KESTREL_KEYRING", "ring.txt");
+                    } else if env_decoy {
+                        c = c.env("KESTREL_KEYRING", "decoy.txt");
+                    }
+                    c
+                };
+                let case = json!({"kind":"cli-keyring","env_decoy":env_decoy,"keyring_from_env_only":via_env_only});
+                let how = if via_env_only { "keyring named by KESTREL_KEYRING only" } else if env_decoy { "-k ring.txt while KESTREL_KEYRING names a decoy keyring with the same names" } else { "-k ring.txt" };
+                // encrypt: the file must open under the ring's bob and name the ring's alice; the decoy bob must not open it
+                let o = proc::run(&wire(vec!["encrypt", "plain.bin", "-t", "bob", "-f", "alice", "-o", "out.ktl", "--env-pass"], "alicepw"), &sc.0);
+                let f = sc.read("out.ktl").unwrap_or_default();
+                if !o.ok() {
+                    rep.violation("cli-keyring/encrypt-fails", case.clone(), format!("kestrel encrypt ({}) failed: {}", how, o.summary()));
+                } else {
+                    match r::read_key_file(&bob.sk, &f) {
+                        Ok(k) if k.sender == alice.pk && k.parsed.plaintext == pl => {}
+                        _ => rep.violation("cli-keyring/encrypted-to-or-from-another-key", case.clone(), format!("kestrel encrypt -t bob -f alice ({}): the file does not open under the named keyring's bob with the named keyring's alice as sender{}", how, if r::read_key_file(&db.sk, &f).is_ok() { " — it opens under the decoy keyring's bob" } else { "" })),
+                    }
+                }
+                // decrypt a message from the real alice: named "alice"
+                let o = proc::run(&wire(vec!["decrypt", "a.ktl", "-t", "bob", "-o", "a.out", "--env-pass"], "bobpw"), &sc.0);
+                if !o.ok() || !o.stderr.contains("File from: alice") || sc.read("a.out").as_deref() != Some(&pl[..]) {
+                    rep.violation("cli-keyring/decrypt", case.clone(), format!("kestrel decrypt ({}) of a message from the keyring's alice: {}", how, o.summary()));
+                }
+                // decrypt a message made with a key the named keyring does not contain: unknown key, never "alice"
+                let o = proc::run(&wire(vec!["decrypt", "d.ktl", "-t", "bob", "-o", "d.out", "--env-pass"], "bobpw"), &sc.0);
+                if o.stderr.contains("File from:") {
+                    rep.violation("cli-keyring/sender-vouched-for-by-another-keyring", case.clone(), format!("kestrel decrypt ({}) of a message whose sender key is not in the named keyring reports: {}", how, o.stderr.lines().find(|l| l.contains("File from:")).unwrap_or("")));
+                } else if !o.ok() || !o.stderr.contains(&da.pk_enc) {
+                    rep.violation("cli-keyring/unknown-sender-not-reported", case.clone(), format!("kestrel decrypt ({}) of a message from an unknown key: expected success with the unknown key's encoding, got {}", how, o.summary()));
+                }
+            }
+        }
+    }
     rep.extra("special_points", json!(sp.len()));
     rep.extra("small_order_encodings", json!(small));
     rep.sample(json!({"kind":"special-recipient","name":"small-order-5-bit255","expect":"key_encrypt returns Err and writes nothing"}));
